@@ -50,7 +50,7 @@ class CloseAfter(Scenario):
         d2 = o.add_data({"D2": {"values": real_np.array([7, 8, 9], dtype="int32"), "type": "integer"}})
         from geoh5py.groups import DrillholeGroup
         from geoh5py.objects import Drillhole
-        dg = DrillholeGroup.create(ws0, name="DH")
+        dg = DrillholeGroup.create(ws0, name="DH", parent=g)      # inside a container group, not directly under the root
         hole = Drillhole.create(ws0, parent=dg, name="hole", collar=[0.0, 0.0, 0.0], surveys=real_np.c_[[0.0, 10.0], [0.0, 0.0], [-90.0, -90.0]])
         hole.add_data({"log": {"depth": real_np.array([1.0, 2.0]), "values": real_np.array([5.0, 6.0])}})
         uid = {"g": g.uid, "h": h.uid, "o": o.uid, "d1": d1.uid, "d2": d2.uid}
@@ -123,6 +123,11 @@ class CloseAfter(Scenario):
                     block = fetch_active_workspace(ws, mode="r+")
                 else:
                     block = Workspace(h5file)
+            except Exception as e:  # noqa: BLE001
+                cx.prove(False, f"the file left by the session that created the tree (closed normally) opens again ({type(e).__name__})",
+                         "file complete")
+                return "open raised"
+            try:
                 with block as ws:
                     held["o"] = ws.get_entity(uid["o"])[0]          # a handle obtained before the close, nothing cached yet
                     state["snap"] = tree_snapshot(ws)
@@ -193,8 +198,15 @@ class CloseAfter(Scenario):
             try:
                 ws.open()
                 again = tree_snapshot(ws)
-                ws.close()
                 cx.prove(set(again) == set(live), f"{what} re-opening the workspace restores access to the same content", "re-open restores access")
+                # full access: a write goes through after the re-open, whatever mode an earlier visit used
+                try:
+                    ws.get_entity(uid["h"])[0].name = "H renamed after re-opening"
+                    wrote = True
+                except Exception:  # noqa: BLE001
+                    wrote = False
+                cx.prove(wrote, f"{what} a plain re-open gives write access again", "re-open restores access")
+                ws.close()
             except Exception as e:  # noqa: BLE001
                 cx.prove(False, f"{what} re-opening the workspace restores access ({type(e).__name__})", "re-open restores access")
             return "ok"
